@@ -58,11 +58,11 @@ func (w *world) checkCall(p *plan, cfg checkCfg, stats *checkStats) (viol []stri
 	defer func() {
 		if len(viol) > 0 {
 			detail = fmt.Sprintf("id=%d kind=%s outcome=%d behav=%d modes=%d/%d msgs=c%d/s%d readN=%d ends=c%v/s%v"+
-				" cli{req=%s resp=%v code=%q msg=%q res=%d recv=%d recvSt=%s sent=%d sendSt=%s endSt=%s hung=%v cancelled=%v}"+
-				" srv{inv=%d recv=%d recvSt=%s sent=%d sendSt=%s ret=%v/%q done=%v} viol=%s",
+				" cli{req=%s resp=%v code=%q msg=%q res=%d recv=%d recvSt=%s sent=%d sendSt=%s endSt=%s hung=%v cancelled=%v lostWake=%d}"+
+				" srv{lostWake=%d inv=%d recv=%d recvSt=%s sent=%d sendSt=%s ret=%v/%q done=%v} viol=%s",
 				p.id, kind, p.outcome, p.cliBehav, p.cliMode, p.srvMode, p.cliMsgs, p.srvMsgs, p.srvReadN, p.cliSendEnd, p.srvSendEnd,
-				stcode(c.reqSt), c.respSet, c.code, short(c.msg), len(c.result), len(c.recv), c.recvSt, c.sentOK, c.sendSt, c.endSt, c.hung, c.cancelled,
-				s.inv, len(s.recv), s.recvSt, s.sent, s.sendSt, s.retSet, s.retCode, s.done, strings.Join(viol, ","))
+				stcode(c.reqSt), c.respSet, c.code, short(c.msg), len(c.result), len(c.recv), c.recvSt, c.sentOK, c.sendSt, c.endSt, c.hung, c.cancelled, c.lostWake,
+				s.lostWake, s.inv, len(s.recv), s.recvSt, s.sent, s.sendSt, s.retSet, s.retCode, s.done, strings.Join(viol, ","))
 		}
 	}()
 
